@@ -40,6 +40,7 @@ JOBSETS = {
     "mixed":         ("Q:4:50:2:1:600+Q:6:50:1:3:400/Q:6:50:1:2:500+Q:4:50:1:2:500", 0, 0, "cr32 and cr64 jobs interleaved: both caches in one run"),
     "phase-cr32":    ("Q:4:0:2:1:600/Q:4:25:1:2:500", 0, 0, "minimum / intermediate phase on cr32: filter design through the double cache, streaming through the float cache"),
     "phase-vs-grow": ("Q:4:25:2:1:600/Q:6:0:1:3:500", 0, 0, "one thread designs an intermediate-phase filter (four transforms of one length through the double cache) while the other grows the same cache beyond it (minimum-phase VHQ design)"),
+    "late-float":    ("Q:6:50:2:1:600+Q:6:50:1:3:400/Q:4:50:1:2:500/Q:6:50:1:3:600", 0, 0, "the process's FIRST float-cache use (a cr32 job) happens while another thread is inside double-cache transforms and a third grows the double cache: also started with the double cache initialised and the float cache cold (warm=2)"),
     "phase-cr64":    ("Q:6:0:3:2:500/Q:6:75:1:2:500", 0, 0, "non-linear phase on cr64"),
     "phase-simd32":  ("Q:4:0:2:1:600/Q:4:25:1:2:500", 1, 0, "non-linear phase on the SIMD float engine (pffft streaming, shared double cache for the design)"),
     "phase-simd64":  ("Q:6:0:3:2:500/Q:6:100:1:2:500", 0, 1, "non-linear phase on the SIMD double engine"),
@@ -48,8 +49,21 @@ JOBSETS = {
     "three-mixed":   ("Q:4:50:2:1:600+Q:6:50:1:3:400/Q:6:0:1:2:500/V:1500:800", 0, 0, "three threads: cr32, cr64, non-linear phase, VR"),
     "three-vr":      ("V:1500:800/V:700:600/V:2500:700+Q:4:25:3:2:400", 0, 0, "three threads through vr_init, then a phase design"),
 }
-QUICK_SETS = ["cr32-pair", "cr32-steady", "cr32-grow", "cr64-pair", "mixed", "phase-cr32", "phase-vs-grow", "phase-simd32", "vr", "three-cr32",
+QUICK_SETS = ["cr32-pair", "cr32-steady", "cr32-grow", "cr64-pair", "mixed", "phase-cr32", "phase-vs-grow", "late-float", "phase-simd32", "vr", "three-cr32",
               "three-mixed"]
+
+
+# starts explored per job set: 0 = process start, 1 = both caches initialised, 2 = only the double cache initialised (3 = only float)
+EXTRA_STARTS = {"late-float": (2,), "mixed": (2,)}
+
+
+def starts(setname):
+    return (0, 1) + EXTRA_STARTS.get(setname, ())
+
+
+def warm_cache(warm, c):
+    """is cache c initialised at the start of a run with this `warm` mode"""
+    return warm == 1 or (warm == 2 and c == 0) or (warm == 3 and c == 1)
 
 
 def nthreads(jobs):
@@ -233,9 +247,10 @@ def classify(run):
                 raced[c] = ent[1][0]
         if not vr_raced_at and len(run["vr_entries"]) >= 2:
             vr_raced_at = run["vr_entries"][1]
-    if sp.get("warm") and raced:
-        vio.append(("INIT-AFTER-INIT", "initialiser entered in a run that started after a complete initialisation"))
-        raced = {}
+    for c in list(raced):
+        if warm_cache(sp.get("warm", 0), c):
+            vio.append(("INIT-AFTER-INIT", "initialiser of cache %d entered in a run that started after its complete initialisation" % c))
+            del raced[c]
     if reject:
         # One excuse, and only inside the known finding: after a raced initialisation has shrunk the tables under a reader, that reader's
         # transform rebuilds them in place (`makewt` beyond the re-allocated block: monitor TABLE-WRITE-BY-NON-WRITER) - a heap overflow,
